@@ -37,7 +37,7 @@ import (
 
 const (
 	chunkWords    = 4096
-	probeWatchdog = 45 * time.Second  // a sleep that the defaults promise to skip (one hour requested; the call takes microseconds)
+	probeWatchdog = 90 * time.Second  // parent-side backstop for the sleep probes / a replayed word (the child's own call watchdog, hostmode.go, fires after 45 s)
 	stallWatchdog = 120 * time.Second // not a single word (a fraction of a millisecond of CPU) finished in any thread
 	maxDiags      = 24
 	maxCapture    = 256 << 10 // bytes on a child's stdout+stderr (expected: none) after which it is stopped
@@ -104,12 +104,15 @@ func childMain() {
 	guest := buildGuest()
 	workers := make([]*worker, threads)
 	for i := range workers {
-		w, err := newWorker(sp.alpha, guest, shapeModeOf(os.Getenv("C18_ENVID")))
+		w, err := newWorker(sp.alpha, guest, os.Getenv("C18_ENVID"))
 		if err != nil {
 			childFail(out, sum, "%v", err)
 		}
 		workers[i] = w
 	}
+
+	var beat atomic.Int64 // words finished, published twice a second for the parent's stall watchdog
+	startMonitor(out, &beat, newCallWatch(sp, workers))
 
 	// explicit word list (replay / explain mode)
 	if js := os.Getenv("C18_WORDS"); js != "" {
@@ -128,13 +131,13 @@ func childMain() {
 				childFail(out, sum, "%v", err)
 			}
 			want := modelTrace(sp.alpha, word)
-			if d := judge(sp, int64(i), word, trs, want); d != nil {
+			if d := judge(sp, workers[0].env, int64(i), word, trs, want); d != nil {
 				sum.BadWords++
 				sum.Diags = append(sum.Diags, *d)
 			}
 			sum.Words++
 			sum.Instances += 4
-			sum.Explain = append(sum.Explain, explain(sp, workers[0].describeShapes(), word, trs, want)...)
+			sum.Explain = append(sum.Explain, explain(sp, workers[0].env, workers[0].describeShapes(), word, trs, want)...)
 		}
 		os.WriteFile(out+".probe1", nil, 0o644)
 		sum.Done = int64(len(lists))
@@ -142,14 +145,23 @@ func childMain() {
 		return
 	}
 
-	// sleep probe: the defaults promise that a one-hour relative clock subscription returns at once.
+	// sleep probes: the defaults promise that a one-hour relative clock subscription returns at once —
+	// whatever context the host calls with (no host-mode letter, then every host mode).
 	os.WriteFile(out+".probe0", nil, 0o644)
 	probe, _ := sp.byNames([]string{"poll_oneoff(clock-1h,OUT2,1,R1)"})
 	if len(probe) != 1 {
 		childFail(out, sum, "probe letter missing")
 	}
-	if _, err := workers[0].runWord(probe); err != nil {
-		childFail(out, sum, "%v", err)
+	probes := [][]int{probe}
+	for i := range sp.alpha {
+		if sp.alpha[i].Host {
+			probes = append(probes, []int{i, probe[0]})
+		}
+	}
+	for _, p := range probes {
+		if _, err := workers[0].runWord(p); err != nil {
+			childFail(out, sum, "%v", err)
+		}
 	}
 	os.WriteFile(out+".probe1", nil, 0o644)
 
@@ -157,21 +169,6 @@ func childMain() {
 	if err != nil {
 		childFail(out, sum, "%v", err)
 	}
-	var beat atomic.Int64 // words finished, published twice a second for the parent's stall watchdog
-	go func() {
-		last := int64(-1)
-		parent := os.Getppid()
-		for {
-			time.Sleep(500 * time.Millisecond)
-			if os.Getppid() != parent {
-				os.Exit(4) // the supervising process is gone
-			}
-			if v := beat.Load(); v != last {
-				last = v
-				os.WriteFile(out+".hb", []byte(strconv.FormatInt(v, 10)), 0o644)
-			}
-		}
-	}()
 	digs := make([]uint64, chunkWords)
 	raw := make([]byte, 8*chunkWords)
 	var mu sync.Mutex
@@ -219,7 +216,7 @@ func childMain() {
 					if !(bytes.Equal(trs[0], want) && bytes.Equal(trs[1], want) && bytes.Equal(trs[2], want) && bytes.Equal(trs[3], want)) {
 						bad++
 						if len(myDiags) < maxDiags {
-							if d := judge(sp, base+k, word, trs, want); d != nil {
+							if d := judge(sp, w.env, base+k, word, trs, want); d != nil {
 								myDiags = append(myDiags, *d)
 							}
 						}
@@ -276,7 +273,7 @@ func childMain() {
 }
 
 // judge classifies a word whose traces are not all equal to the model trace.
-func judge(sp *space, idx int64, word []int, trs [4][]byte, want []byte) *diag {
+func judge(sp *space, env int, idx int64, word []int, trs [4][]byte, want []byte) *diag {
 	var best *stepDiff
 	bestInst := -1
 	for i := 0; i < 4; i++ {
@@ -297,14 +294,25 @@ func judge(sp *space, idx int64, word []int, trs [4][]byte, want []byte) *diag {
 	if bestInst%2 == 1 {
 		in += " (reaches WASI through the hostile-stack shapes)"
 	}
+	host, _ := hostOf(sp.alpha, word)
+	in += ", host context " + ctxKindNames[ctxKindAt(host, env, bestInst, best.Step)]
 	return &diag{Index: idx, Word: sp.names(word), Inst: in, Who: who, stepDiff: *best}
 }
 
-func explain(sp *space, shapes string, word []int, trs [4][]byte, want []byte) []string {
+func explain(sp *space, env int, shapes string, word []int, trs [4][]byte, want []byte) []string {
 	var o []string
 	const rec = 5 + winSize
 	o = append(o, "word: "+strings.Join(sp.names(word), " ; "))
 	o = append(o, "call shapes: "+shapes)
+	host, calls := hostOf(sp.alpha, word)
+	for k := range calls {
+		var ks []string
+		for i := 0; i < 4; i++ {
+			ks = append(ks, instNames[i]+"="+ctxKindNames[ctxKindAt(host, env, i, k)])
+		}
+		o = append(o, fmt.Sprintf("host contexts of call %d: %s", k, strings.Join(ks, " ")))
+	}
+	word = calls
 	for k := 0; k*rec+rec <= len(want); k++ {
 		w := want[k*rec:]
 		o = append(o, fmt.Sprintf("  step %d %s: model %s R1=%x R2=%x OUT=%x", k, sp.alpha[word[k]].Name,
@@ -507,6 +515,19 @@ func supervise(cs []*childProc) {
 	}
 }
 
+// readStuck returns the report a child left when its call watchdog fired (nil otherwise).
+func readStuck(c *childProc) *stuckReport {
+	b, err := os.ReadFile(c.out + ".stuck")
+	if err != nil {
+		return nil
+	}
+	st := &stuckReport{}
+	if json.Unmarshal(b, st) != nil {
+		die("child %s: unreadable stuck report %q", c.env.id, b)
+	}
+	return st
+}
+
 func readSummary(c *childProc) error {
 	b, err := os.ReadFile(c.out + ".json")
 	if err != nil {
@@ -615,6 +636,15 @@ func parentMain(run *fw.Run, self, tmp string) func() {
 				fmt.Sprintf("environment %s: bytes written by the default-configured guest to fd 1/2 appeared on the host process's %s (%d bytes captured) instead of being discarded", c.env.id, which, len(so)+len(se)),
 				replayCase{c.env.id, []string{"fd_write(1,iov17,R1)", "fd_write(2,iov17+iov64,R1)"}, run.Tier})
 			outcomes.Inc("guest-output-on-host-stdio")
+		}
+		if st := readStuck(c); st != nil {
+			run.Violation(st.signature(),
+				fmt.Sprintf("environment %s, %s, word %q: call %d (%s) did not return within %.0f s when the host called it with a context of kind %q on a runtime of flavour %q; under default configuration no WASI call may wait in real time (the longest sleep this alphabet asks for is one hour, a call takes microseconds)",
+					c.env.id, st.Inst, st.Word, st.Step, st.Letter, st.Seconds, st.Ctx, st.Runtime),
+				replayCase{c.env.id, st.Word, run.Tier})
+			outcomes.Inc("call-blocked-in-real-time")
+			common = 0
+			continue
 		}
 		switch c.killed {
 		case "output":
@@ -737,15 +767,15 @@ func parentMain(run *fw.Run, self, tmp string) func() {
 
 	fams := []map[string]any{}
 	for _, f := range sp.families {
-		fams = append(fams, map[string]any{"family": f.name, "letters": len(f.letters), "depth": f.depth, "power": f.power, "pair_repetitions": f.pairs, "prefixes": len(f.prefixes), "indices": f.count})
+		fams = append(fams, map[string]any{"family": f.name, "letters": len(f.letters), "depth": f.depth, "power": f.power, "pair_repetitions": f.pairs, "prefixes": len(f.prefixes), "host_modes": len(f.host), "indices": f.count})
 	}
 	om := outcomes.Map()
 	return func() {
 		run.Finish(fw.Coverage{
 			Evaluations: evaluations, DistinctNontriv: words,
-			Rule:    "evaluation = one fresh default-configured instance executing one word (every word runs in 3 host environments x 2 engines x 2 simultaneously live instances: A calls the export wrappers from a clean stack, B runs a guest stack dirtier before every call and reaches the import through frameless forwarders); distinct = canonical words of maximal length (letters after proc_exit are not spelled out; every proper prefix is covered by the per-step trace of its extensions); all are non-trivial (each performs >=1 WASI call whose errno and memory window are compared); distinct_traces counts how many of them are observationally different",
+			Rule:    "evaluation = one fresh default-configured instance executing one word (every word runs in 3 host environments x 2 engines x 2 simultaneously live instances: A calls the export wrappers from a clean stack, B runs a guest stack dirtier before every call and reaches the import through frameless forwarders; the host passes contexts of all 10 kinds, spread over these 12 instances or fixed by a leading host-mode letter, which may also select a WithCloseOnContextDone runtime); distinct = canonical words of maximal length (letters after proc_exit are not spelled out; every proper prefix is covered by the per-step trace of its extensions); all are non-trivial (each performs >=1 WASI call whose errno and memory window are compared); distinct_traces counts how many of them are observationally different",
 			Samples: samples.List(), Exhaustive: true, Outcomes: om,
-			Bounds: map[string]any{"wasi_functions": len(wasiFns), "letters": len(sp.alpha), "poll_list_letters": sp.nList, "main_letters": sp.nMain, "families": fams, "indices": sp.total,
+			Bounds: map[string]any{"wasi_functions": len(wasiFns), "letters": len(sp.alpha) - sp.nHost, "poll_list_letters": sp.nList, "main_letters": sp.nMain, "host_mode_letters": sp.nHost, "host_context_kinds": ctxKindNames[:], "runtime_flavors": rtFlavorNames[:], "families": fams, "indices": sp.total,
 				"window_bytes": winSize, "environments": len(cs), "engines": 2, "instances_per_engine": 2, "call_shapes": len(shapeSuffix)},
 			Extra: map[string]any{"environments": perEnv, "wasi_calls_traced": steps, "distinct_traces": distinct,
 				"digests_compared": common * int64(len(cs)), "digests_differing_from_model": vsModel, "digests_differing_across_processes": cross,
@@ -754,7 +784,8 @@ func parentMain(run *fw.Run, self, tmp string) func() {
 			"the model's constants were read from internal/sys/sys.go, internal/sys/stdio.go, internal/platform/time.go and crypto.go; the random stream is math/rand seeded with 42 consumed through (*rand.Rand).Read (Go standard library, trusted)",
 			"outcomes the statement does not fix (errno of unsupported operations on stdio descriptors, their reported file type, argument-check order) were calibrated against the unchanged tree; they depend on model state only",
 			"\"different wall-clock times\" is exercised only by starting the child processes 1.2 s apart; the kernel clock cannot be faked for a static Go binary",
-			"real sleep is detected by a 45 s watchdog on a call that requests one hour and takes microseconds when the property holds; a child in which no word at all finishes for 120 s is reported as a hang",
+			"real sleep is detected by a 45 s watchdog inside every child on every single WASI call (every clock subscription of the alphabet requests one hour; a call takes microseconds when the property holds), backed by a 90 s parent-side watchdog on the probes; a child in which no word at all finishes for 120 s is reported as a hang",
+			"host contexts: 10 kinds built from the standard library plus one host-written Context; every context stays alive for the whole run except the two kinds that are finished before use, and those two are not combined with WithCloseOnContextDone(true) (the documented result there is a refused call, not a module default)",
 			"fd_filestat_set_times on an open stdio descriptor is excluded from the alphabet (see NOTES.md)",
 		})
 	}
@@ -797,6 +828,7 @@ func tryMain(args []string) {
 			}
 		}
 		fmt.Println("   poll_oneoff[<0..4 of clkR,clkA,rd0..rd3,wr0..wr3, comma separated>]")
+		fmt.Println("   optional first letter: host[ctx=<" + strings.Join(ctxKindNames[:], "|") + ">,runtime=<" + strings.Join(rtFlavorNames[:], "|") + ">]")
 		os.Exit(2)
 	}
 	os.Exit(runCase("(command line)", replayCase{Env: args[0], Word: args[1:], Tier: "quick"}))
@@ -832,6 +864,10 @@ func runCase(sig string, rc replayCase) int {
 	so, _ := os.ReadFile(c.out + ".stdout")
 	se, _ := os.ReadFile(c.out + ".stderr")
 	fail := false
+	if st := readStuck(c); st != nil {
+		fmt.Printf("%s: call %d (%s) did not return within %.0f s (host context %s, runtime %s)\nRESULT: still fails (%s)\n", st.Inst, st.Step, st.Letter, st.Seconds, st.Ctx, st.Runtime, st.signature())
+		return 1
+	}
 	if c.killed != "" {
 		fmt.Printf("the word did not finish within %v (killed: %s)\n", probeWatchdog, c.killed)
 		return 1
